@@ -12,8 +12,10 @@ MANIFEST = {
              "order, universe membership, start vertex, direction, unknown_handling, ff_via and ff_result "
              "(uninterpreted functions or None) are SMT variables. Obligations: output starts with start, has no "
              "repetition, equals the reference reachability fix-point as a set; the three traversals agree; list form "
-             "== generator form; ff_result only filters the listing; pre-flight behaviour; termination within the "
-             "call-depth bound.",
+             "== generator form; ff_result only filters the listing; every form returns wherever reachability is "
+             "defined (elsewhere - empty universe, start outside it, unknown-type link under LNK_UNKNOWN_ERROR - only "
+             "'nothing outside the universe is listed' is required); termination (a call-depth bound hit is replayed "
+             "natively: RecursionError is a violation).",
     "note": "Bounds: 3 vertices (one of them optionally a falsy Vertex subclass), 2-3 two-ended links per class "
             "multiset, universe None or any sub-universe of the pool.  Trusted: pysym (validated per path on CPython), "
             "z3, the reference fix-point.",
